@@ -170,6 +170,51 @@ def op_hist(recorded):
     return dict(sorted(h.items()))
 
 
+def minimise(kind, ai, ops, opts, battery, clause, pid, rounds=8):
+    """Delta-debugging of a failing history (only ever runs when a violation was found): drop operations while the
+    same clause, owned by the same property, still fails.  All candidates of a round are judged by ONE batch of TLC
+    runs, so a round costs a few seconds.  Returns the shortest failing operation list found."""
+    def still_fails(tr, verdict):
+        for err in traces.errors(verdict):
+            if err["clause"] != clause:
+                continue
+            ev = traces.failing_event(tr, err)
+            own = traces.owner(ev["a"], err["clause"], ev["exc"])
+            if own == "C10" and pid != "C10":
+                own = traces.owner({k: v for k, v in ev["a"].items() if k != "via"}, err["clause"], ev["exc"])
+            if own == pid:
+                return err["step"]
+        return 0
+    best = list(ops)
+    for _ in range(rounds):
+        cands = []
+        n = len(best)
+        chunk = max(1, n // 8)
+        for i in range(0, n - 1, chunk):                     # never drop the last (failing) call
+            c = best[:i] + best[min(n - 1, i + chunk):]
+            if len(c) < n:
+                cands.append(c)
+        if chunk > 1:
+            cands += [best[:i] + best[i + 1:] for i in range(n - 1)]
+        if not cands:
+            break
+        jobs = [("min%d" % j, kind, ai, c, battery, NTK, NFK, opts) for j, c in enumerate(cands)]
+        rec = traces.record_all(jobs, nproc=8)
+        ver, _ = traces.judge(rec)
+        good = []
+        for t in rec:
+            step = still_fails(t, ver[t["id"]])
+            if step:
+                good.append([e["a"] for e in t["events"][:step]])
+        if not good:
+            break
+        shortest = min(good, key=len)
+        if len(shortest) >= len(best):
+            break
+        best = shortest
+    return best
+
+
 def run(pid, level="model_checking"):
     rep = common.Report(pid, level)
     common.use_repo()
@@ -220,6 +265,7 @@ def run(pid, level="model_checking"):
     verdicts, js = traces.judge(recorded)
     byid = {t["id"]: t for t in recorded}
     job_battery = {j[0]: j[4] for j in jobs}
+    job_opts = {j[0]: (j[7] if len(j) > 7 else {}) for j in jobs}
     cut = {}
     n_events = sum(len(t["events"]) for t in recorded)
     for tid, v in verdicts.items():
@@ -240,7 +286,8 @@ def run(pid, level="model_checking"):
             step = err["step"]
             rep.violation(describe_failure(tr, err),
                           {"kind": tr["kind"], "auto_index": tr["auto_index"], "ops": [e["a"] for e in tr["events"][:step]],
-                           "battery": job_battery.get(tid, []), "clause": err["clause"], "expected": err["expected"]},
+                           "battery": job_battery.get(tid, []), "clause": err["clause"], "expected": err["expected"],
+                           "opts": job_opts.get(tid, {})},
                           tags=failure_tags(tr, err))
             break                     # one report per trace: its first failure owned by this property
     n_fault = 0
@@ -308,6 +355,24 @@ def run(pid, level="model_checking"):
         "test_suite_traces_judged": n_suite,
         "design_states": st, "design_transitions": tr_, "checker_cmd": cmd,
     }
+    if rep.violations:
+        # shrink the shortest representative of (up to three) classes so that the replay file is readable
+        classes = {}
+        for v in rep.violations:
+            if "ops" in v["case"]:
+                classes.setdefault(tuple(v["tags"]), []).append(v)
+        for cls, vs in sorted(classes.items(), key=lambda kv: -len(kv[1]))[:3]:
+            v = min(vs, key=lambda x: len(x["case"]["ops"]))
+            c = v["case"]
+            try:
+                small = minimise(c["kind"], c["auto_index"], c["ops"], {k: x for k, x in c.get("opts", {}).items() if k != "prefill_points"},
+                                 c.get("battery", []), c["clause"], pid)
+            except Exception as e:          # minimisation is a convenience; never let it hide the violation
+                small = c["ops"]
+            if len(small) < len(c["ops"]):
+                c["ops_before_minimisation"] = len(c["ops"])
+                c["ops"] = small
+                v["what"] = "[minimised to %d call(s)] " % len(small) + v["what"]
     rep.assumptions = ["values are ranks mapped order-isomorphically to real values by the plain theme (verified at start-up)",
                        "user callables are the fixed total functions of the theme",
                        "the per-step projection reads CSV contents through a separate descriptor with an independent row decoder"]
@@ -332,7 +397,7 @@ def replay(repj):
     if "fault_at" in c:
         print("replay: fault-injection case (re-run ./check %s): %s" % (repj["property"], json.dumps(c)[:1500]))
         return 1
-    job = ("replay", c["kind"], c["auto_index"], c["ops"], c.get("battery", []), NTK, NFK)
+    job = ("replay", c["kind"], c["auto_index"], c["ops"], c.get("battery", []), NTK, NFK, c.get("opts", {}))
     rec = traces.record_all([job], nproc=1)
     v, _ = traces.judge(rec, workers=1)
     vv = v["replay"]
